@@ -4,10 +4,12 @@ import OciModel.Driver.Ref
 import OciModel.Driver.Err
 import OciModel.Driver.Mem
 import OciModel.Driver.Req
+import OciModel.Driver.Upload
 
 structure DState where
   scopes : OciModel.Driver.Scope.Regs := []
   mem : OciModel.Mem.State := OciModel.Mem.init false
+  up : OciModel.Driver.Upload.UState := {}
 
 /-- One line in, one line out. The first token names the engine. -/
 def step (st : DState) (line : String) : DState × String :=
@@ -19,6 +21,9 @@ def step (st : DState) (line : String) : DState × String :=
     let (m, out) := OciModel.Driver.Mem.drive st.mem rest
     ({ st with mem := m }, out)
   | "srv" :: _ => (st, "skip")
+  | "up" :: rest =>
+    let (u, out) := OciModel.Driver.Upload.drive st.up rest
+    ({ st with up := u }, out)
   | "req" :: rest => (st, OciModel.Driver.Req.drive rest)
   | "err" :: rest => (st, OciModel.Driver.Err.drive rest)
   | "ref" :: rest => (st, OciModel.Driver.Ref.drive rest)
